@@ -34,7 +34,17 @@ struct Schedule {
 
 fn go_kinds() -> Vec<(&'static str, bool)> {
     // (command, ends by itself)
-    vec![("go infinite", false), ("go depth 3", true), ("go nodes 400", true), ("go movetime 30", true), ("go wtime 600 btime 600", true)]
+    vec![
+        ("go infinite", false),
+        ("go depth 3", true),
+        ("go nodes 400", true),
+        ("go movetime 30", true),
+        ("go wtime 600 btime 600", true),
+        // budgets that will not run out during the schedule: the search must be ended by stop
+        ("go movetime 3600000", false),
+        ("go nodes 4000000000", false),
+        ("go wtime 72000000 btime 72000000", false),
+    ]
 }
 
 fn schedules(g1: &Game, g2: &Game) -> Vec<Schedule> {
@@ -194,6 +204,34 @@ fn schedules(g1: &Game, g2: &Game) -> Vec<Schedule> {
                 Step::Out("bestmove".into(), 8_000),
             ],
         });
+        // ---- an impatient GUI: further go commands while the search is running. They may be
+        // refused, but the session must stay sound: one bestmove per accepted go, stop really
+        // ends all searching, nothing unsolicited afterwards, the next go is served
+        if !self_ending {
+            v.push(Schedule {
+                name: format!("repeated-go-while-searching[{go}]"),
+                sched: String::new(),
+                held_ms: 0,
+                steps: vec![
+                    Step::Send(p1.clone()),
+                    Step::Send(go.clone()),
+                    Step::Evt("search.started#1".into()),
+                    Step::Send(go.clone()),
+                    Step::Sleep(30),
+                    Step::Send(go.clone()),
+                    Step::Sleep(30),
+                    Step::Send("stop".into()),
+                    Step::Out("bestmove".into(), ALLOWANCE_MS + 3_000),
+                    Step::Sleep(700),
+                    Step::Send("isready".into()),
+                    Step::Out("readyok".into(), 3_000),
+                    Step::Send(p2.clone()),
+                    Step::Send("go depth 2".into()),
+                    Step::Out("bestmove".into(), 8_000),
+                    Step::Sleep(300),
+                ],
+            });
+        }
         // ---- the input thread is the one held ---------------------------------------------
         v.push(Schedule {
             name: format!("main-held-after-spawn[{go}]"),
@@ -320,6 +358,48 @@ fn check_history(prop_name: &str, sched: &Schedule, e: &Engine, job: usize, miss
     let refused = stderr.iter().any(|x| x.line.contains("already running"));
     let panicked = stderr.iter().find(|x| x.line.contains("panicked at")).map(|x| x.line.clone());
     let kind = sched.name.split('[').next().unwrap_or("").to_string();
+    if kind == "repeated-go-while-searching" {
+        // the GUI is not conformant here, so go commands may be refused; what must hold:
+        // bestmove lines == go commands - refusals, and silence once everything has been answered
+        let n_go = gos.len();
+        let n_refused = stderr.iter().filter(|x| x.line.contains("already running")).count();
+        let n_best: usize = gos.iter().map(|g| g.bestmoves.len()).sum();
+        if n_best + n_refused != n_go {
+            out::violation(
+                prop_name,
+                "repeated-go-accounting",
+                format!("[{}] {n_go} go commands, {n_refused} refused, but {n_best} bestmove lines\n{}", sched.name, e.transcript(0, 30)),
+                replay.clone(),
+            );
+        }
+        // after the last bestmove nothing may still be searching: no info line more than 250 ms later
+        let last_bm = e.log.iter().filter(|x| x.src == Src::Out && x.line.starts_with("bestmove")).map(|x| x.t_us).max().unwrap_or(0);
+        let late_info = e.log.iter().filter(|x| x.src == Src::Out && x.line.starts_with("info") && x.t_us > last_bm + 250_000).count();
+        // ... and between the stop's answer and the next go as well
+        let first_bm = e.log.iter().filter(|x| x.src == Src::Out && x.line.starts_with("bestmove")).map(|x| x.t_us).min().unwrap_or(0);
+        let next_go = e.log.iter().filter(|x| x.src == Src::In && x.line.starts_with("go") && x.t_us > first_bm).map(|x| x.t_us).min().unwrap_or(u64::MAX);
+        let stray_info = e.log.iter().filter(|x| x.src == Src::Out && x.line.starts_with("info") && x.t_us > first_bm + 250_000 && x.t_us < next_go).count();
+        if late_info + stray_info > 0 {
+            out::violation(
+                prop_name,
+                "search-still-running-after-stop",
+                format!("[{}] {} info line(s) arrive long after the stop was answered: a search is still running that no stop can reach\n{}", sched.name, late_info + stray_info, e.transcript(0, 30)),
+                replay.clone(),
+            );
+        }
+        // legality of what was answered
+        for g in &gos {
+            let legal: Vec<String> = g.pos.legal_moves().iter().map(Mv::uci).collect();
+            for (_, mv) in &g.bestmoves {
+                if !legal.contains(mv) {
+                    out::violation(prop_name, "repeated-go-illegal-bestmove", format!("[{}] bestmove {mv} not legal in '{}'", sched.name, g.pos.fen()), replay.clone());
+                }
+            }
+        }
+        out::count("C10.evaluations", 1);
+        out::count(&format!("C10.kind.{kind}"), 1);
+        return None;
+    }
     for (k, g) in gos.iter().enumerate() {
         let legal: Vec<String> = g.pos.legal_moves().iter().map(Mv::uci).collect();
         if g.bestmoves.is_empty() {
@@ -557,7 +637,19 @@ fn stress_session(ctx: &Ctx, idx: usize, seeds: &[String], cycles: u64) {
     for _ in 0..cycles {
         let g = random_game(&mut rng, seeds, 12, true);
         e.send(&g.command());
-        let go = *rng.pick(&["go infinite", "go infinite", "go depth 2", "go nodes 300", "go movetime 5", "go depth 1"]);
+        let go = *rng.pick(&[
+            "go infinite",
+            "go infinite",
+            "go depth 2",
+            "go nodes 300",
+            "go movetime 5",
+            "go depth 1",
+            "go movetime 3600000",
+            "go movetime 3600000",
+            "go nodes 4000000000",
+            "go wtime 72000000 btime 72000000 winc 1000 binc 1000",
+        ]);
+        let needs_stop = go == "go infinite" || go.contains("3600000") || go.contains("4000000000") || go.contains("72000000");
         e.send(go);
         match rng.below(4) {
             0 => {}
@@ -572,7 +664,7 @@ fn stress_session(ctx: &Ctx, idx: usize, seeds: &[String], cycles: u64) {
             2 => e.settle(rng.below(4)),
             _ => e.settle(rng.below(30)),
         }
-        if go == "go infinite" || rng.chance(1, 2) {
+        if needs_stop || rng.chance(1, 2) {
             e.send("stop");
         }
         match e.wait_since(out_from, ALLOWANCE_MS + 6_000, |ev| ev.src == Src::Out && ev.line.starts_with("bestmove")) {
